@@ -777,6 +777,8 @@ func runC10(c *Ctx) {
 	c10RunProvocations(c, boost)
 	// ---- the ORDER of fork ids (static ragged nested map calls, run-time expansion) ----
 	c10ForkOrder(c, rt)
+	// ---- history independence of a reused Parser ----
+	c10History(c)
 }
 
 func head(s string, n int) string {
